@@ -197,6 +197,14 @@ func init() {
 							fc.Script = append(fc.Script, []any{"open", 1}, []any{"seek", 1, a, 0}, []any{"readfull", 1, b - a})
 						}
 					}
+					// the same ranges through a subset-matcher traversal (non-empty ranges)
+					if open == "reify" {
+						for a := 0; a < L; a++ {
+							for b := a + 1; b <= L; b++ {
+								fc.Script = append(fc.Script, []any{"subset", a, b})
+							}
+						}
+					}
 					if err := runFileCase(fc, tr); err != nil {
 						return err
 					}
